@@ -327,6 +327,9 @@ m("C10-bigint-json-radix16", PROTO, "        \"messageId\": to_bigint(&rln_witne
 m("C18-load-direct-open", SLED, "        let db = Self::new_with_tries(config, 0)?.0;", "        let db = match config.open() {\n            Ok(db) => db,\n            Err(_) => Self::new_with_tries(config, 0)?.0,\n        };", "C18")
 m("C11-macro-err-arm-indexes", FFI, "                Err(err) => {\n                    std::mem::forget(output_data);\n                    eprintln!(\"execution error: {err}\");\n                    false\n                }\n            }\n        }\n    };\n\n}", "                Err(err) => {\n                    std::mem::forget(output_data);\n                    let causes: Vec<String> = err.chain().map(|c| c.to_string()).collect();\n                    eprintln!(\"execution error: {}\", causes[1]);\n                    false\n                }\n            }\n        }\n    };\n\n}", "C11")
 
+CIRC = "rln/src/circuit/mod.rs"
+m("C17-arkzkey-fields-swapped", CIRC, "    pub a: SerializableMatrix<F>,\n    pub b: SerializableMatrix<F>,", "    pub b: SerializableMatrix<F>,\n    pub a: SerializableMatrix<F>,", "C17")
+
 def main():
     os.makedirs(OUT, exist_ok=True)
     pref = sys.argv[1] if len(sys.argv) > 1 else ""
